@@ -495,6 +495,16 @@ def r8_decision_reaches_task(ctx: Context) -> None:
                       f"`{norm(e)[:70]}` installs the decision `{pls}` as the task's pending placement, but some path gets here without "
                       f"`{pls}.task.schedule(..., {pls})`: the task is placed with the new strategy's resources while it still carries "
                       "the runtime of the previous decision")
+            if isinstance(e, ast.Assign):
+                # the cached event is re-timed to the decision's time on every path that installs the decision
+                ev = norm(e.targets[0].value)
+                tstores = [a for a in ast.walk(m) if isinstance(a, ast.Assign) and isinstance(a.targets[0], ast.Attribute) and a.targets[0].attr == "_time"
+                           and norm(a.targets[0].value) == ev and lin.lin_of(a.value) == lin.lin_of(ast.parse(f"{pls}.placement_time", mode="eval").body)]
+                okt = any(g.dominates(g.node_of(t), en) or (g.dominates(en, g.node_of(t)) and not g.reachable(en, g.ret, avoid={g.node_of(t).id})) for t in tstores)
+                ctx.check(okt, "C03.R8", f"{qualname(m)}|`{ev}` re-timed to {pls}.placement_time whenever the decision is replaced", loc(e),
+                          "event time := decision time on every path",
+                          f"`{ev}._placement` is replaced by `{pls}` but some path leaves `{ev}._time` at the previous decision's time: the task "
+                          "starts at the old time, earlier (or later) than the time its scheduler chose")
     ctx.floor("C03.R8", "decisions installed as pending placement events", n, 3)
 
 
